@@ -321,17 +321,28 @@ func runFanin(ms []MMap) KObs {
 		if cerr != nil {
 			panic("harness: fan-in chain does not compile: " + cerr.Error())
 		}
-		sr, serr := r.Stream(ctx, "")
-		if serr != nil {
-			err = serr
-			return
+		call := func() (map[string]any, error) {
+			sr, serr := r.Stream(ctx, "")
+			if serr != nil {
+				return nil, serr
+			}
+			return compose.VerifConcatStreamReader(sr)
 		}
-		out, err = compose.VerifConcatStreamReader(sr)
+		out, err = call()
+		// a second call on the SAME compiled object (the lambdas hand out the same message values again)
+		out2, err2 := call()
+		if o1, o2 := faninObs(out, err), faninObs(out2, err2); !kobsEqual(o1, o2) && secondCall == "" {
+			secondCall = fmt.Sprintf("fan-in: the second Stream call on the same compiled chain (same chunks) gives %s, the first gave %s", js(o2), js(o1))
+		}
 	})
-	switch {
-	case p != nil:
+	if p != nil {
 		return KObs{Class: "panic", Msg: fmt.Sprint(p)}
-	case err != nil:
+	}
+	return faninObs(out, err)
+}
+
+func faninObs(out map[string]any, err error) KObs {
+	if err != nil {
 		return KObs{Class: "err", Msg: err.Error()}
 	}
 	o := KObs{Class: "val", Val: MMap{}}
